@@ -59,6 +59,19 @@ theorem pin_fixes :
     Gen.Sasl.scramEscapesName = true ∧ Gen.Sasl.hiAssertsSaltLen = false ∧
     Gen.Sasl.scramSaltMax = none := by decide
 
+/-- which channel binding a -PLUS mechanism carries (tls_openssl.c `tls_init_channel_binding`):
+    RFC 5929 §3 `tls-unique` — the first Finished message of the handshake (the client's, 12 bytes in
+    TLS 1.0–1.2, 36 in SSL 3; the peer's when the session was resumed) — for every version up to
+    TLS 1.2, RFC 9266 `tls-exporter` (label "EXPORTER-Channel-Binding", 32 bytes, no context) for
+    TLS 1.3.  Observing it needs a live session of each version; it is translated from the source and
+    pinned here (the `c=` field built from these bytes: `scram_exchange_plus` below). -/
+theorem pin_channel_binding :
+    Gen.Sasl.cbCases = [("SSL3_VERSION", "tls-unique", 36, "", 0), ("TLS1_VERSION", "tls-unique", 12, "", 0),
+      ("TLS1_1_VERSION", "tls-unique", 12, "", 0), ("TLS1_2_VERSION", "tls-unique", 12, "", 0),
+      ("TLS1_3_VERSION", "tls-exporter", 32, "EXPORTER-Channel-Binding", 24)] ∧
+    Gen.Sasl.cbFinishedWhen = ("ssl_version<=TLS1_2_VERSION", "SSL_get_peer_finished", "SSL_get_finished") ∧
+    Gen.Sasl.cbExporterElse = true ∧ "EXPORTER-Channel-Binding".length = 24 := by decide
+
 /-- the mechanisms of `scram_algs[]` and the standard functions they are claimed to compute -/
 def scramAlgs : List (Alg × Rfc5802.HashFn) :=
   [(algSha1, Rfc5802.sha1Fn), (algSha256, Rfc5802.sha256Fn), (algSha512, Rfc5802.sha512Fn)]
